@@ -571,13 +571,13 @@ def _spec_kat(ctx, files, stride):
 def _hash_source(ctx):
     """TJ.Props.C11Gen: the terms REGENERATED from src/tinyjambu-hash.c (hash_update, hash_compress) compute the model's HState.update / compress"""
     import taint
-    ok, stats = taint.regenerate(ctx, ('TJ.Props.C11Gen', 'TJ.Props.C10Gen'))
+    ok, stats = taint.regenerate(ctx, ('TJ.Props.C11Gen', 'TJ.Props.C10Gen', 'TJ.Props.StreamGen'))
     ctx.extra_cov['minic'] = {k: stats.get(k) for k in ('functions', 'translated', 'errors', 'build_ok')}
     if stats.get('errors'): ctx.broken_proofs.append('tools/c2lean.py cannot translate the current sources: ' + '; '.join(stats['errors'][:3]))
     elif not ok: ctx.broken_proofs.append('TJ.Props.C11Gen / C10Gen (regenerated tinyjambu_hash, _init, _update, _finalize, _compress = model, = Spec.hash) no longer check: ' + re.sub(r'\s+', ' ', stats.get('build_log_tail', ''))[-600:])
 
 def check_C10(ctx):
-    ctx.build(['prod', 'san', 'gcc-Os']); _hash_source(ctx); ctx.lean(extra_modules=['TJ.Props.C11Gen', 'TJ.Props.C10Gen'])
+    ctx.build(['prod', 'san', 'gcc-Os']); _hash_source(ctx); ctx.lean(extra_modules=['TJ.Props.C11Gen', 'TJ.Props.C10Gen', 'TJ.Props.StreamGen'])
     ctx.equality_streams.update({'hash': 'TJ.Props.C10.hash_is_mdph', 'hash(matrix)': 'TJ.Props.C10.hash_is_mdph', 'h.histories': 'TJ.Props.C10.hash_is_mdph + TJ.Props.C11.streaming'})
     msgs = _hash_msgs(ctx)
     lines = ['hash %s' % ('NULL' if (len(m) == 0 and i % 2) else hx(m)) for i, m in enumerate(msgs)]
@@ -675,7 +675,7 @@ def _streaming_check(ctx, kind):
                      'init+updates+finalize differs from the one-shot function on the same message (last op is the one-shot call)', index=len(hist) - 1)
 
 def check_C11(ctx):
-    ctx.build(); _hash_source(ctx); ctx.lean(extra_modules=['TJ.Props.C11Gen', 'TJ.Props.C10Gen'])
+    ctx.build(); _hash_source(ctx); ctx.lean(extra_modules=['TJ.Props.C11Gen', 'TJ.Props.C10Gen', 'TJ.Props.StreamGen'])
     _streaming_check(ctx, 'h')
     if ctx.tier == 'thorough':
         # lengths that do not fit 32 bits (a long soak: about 90 s of hashing per case, both digests computed in parallel)
@@ -745,8 +745,17 @@ def _hkdf_ref(orc, key, salt, info, n):
         t = hm(prk, t + info + bytes([i])); okm += t; i += 1
     return okm[:n]
 
+def _hkdf_source(ctx):
+    """TJ.Props.C13Gen: the terms REGENERATED from src/tinyjambu-hkdf.c (tinyjambu_hkdf, tinyjambu_hkdf_extract, tinyjambu_hkdf_expand) over the regenerated HMAC and hash compute
+    RFC 5869 HKDF (one-shot, cap) and the model's incremental expand"""
+    import taint
+    ok, stats = taint.regenerate(ctx, ('TJ.Props.C13Gen',))
+    ctx.extra_cov['minic'] = {k: stats.get(k) for k in ('functions', 'translated', 'errors', 'build_ok')}
+    if stats.get('errors'): ctx.broken_proofs.append('tools/c2lean.py cannot translate the current sources: ' + '; '.join(stats['errors'][:3]))
+    elif not ok: ctx.broken_proofs.append('TJ.Props.C13Gen (regenerated tinyjambu_hkdf / _extract / _expand and their callees = RFC 5869 over the library HMAC, incremental expand = the model) no longer checks: ' + re.sub(r'\s+', ' ', stats.get('build_log_tail', ''))[-600:])
+
 def check_C13(ctx):
-    ctx.lean(); ctx.build()
+    ctx.build(); _hkdf_source(ctx); ctx.lean(extra_modules=['TJ.Props.C13Gen'])
     ctx.equality_streams.update({'hkdf': 'TJ.Props.C13.oneshot', 'hkdf.histories': 'TJ.Props.C13.incremental'})
     g = ctx.g
     lens = list(range(0, 100)) + [127, 128, 129, 255, 256, 1000, 8128, 8129, 8159, 8160, 8161, 8192, 9000, 20000]
@@ -1625,7 +1634,7 @@ def check_C07(ctx):
     # all-shapes statements: the functional theorems on the regenerated entry points conclude `callFun ... = .ok ...` in the instrumented semantics, so the monitor never fires
     ok, stats = taint.regenerate(ctx, ('TJ.Props.C07Gen',))
     if stats.get('errors'): ctx.broken_proofs.append('tools/c2lean.py cannot translate the current sources: ' + '; '.join(stats['errors'][:3]))
-    elif not ok: ctx.broken_proofs.append('TJ.Props.C07Gen (every shape of the AEAD, SIV, hash, HMAC, PBKDF2 and PRNG entry points completes under the secrecy monitor) no longer checks: ' + re.sub(r'\s+', ' ', stats.get('build_log_tail', ''))[-600:])
+    elif not ok: ctx.broken_proofs.append('TJ.Props.C07Gen (every shape of the AEAD, SIV, hash, HMAC, HKDF, PBKDF2 and PRNG entry points, one-shot and streaming, completes under the secrecy monitor) no longer checks: ' + re.sub(r'\s+', ' ', stats.get('build_log_tail', ''))[-600:])
     ctx.lean(extra_modules=['TJ.Props.C07Gen'])
     ctx.assume.append('constant-time claim for compiled code is an observation on the listed variants (valgrind memcheck with secrets undefined), not a proof')
 
